@@ -7,12 +7,14 @@ that tagged tree is itself validated against the plain-AST parse (tags erased ==
 """
 from __future__ import annotations
 
+import random
 import re
 import sys
 import types
 
 from .. import gen as G
 from .. import lang as L
+from ..common import h64
 
 BUILTINS = ('int', 'float', 'str', 'bool', 'list')
 
@@ -28,6 +30,14 @@ HOSTILE_METHODS = ['children', 'asjson', 'clone']              # methods of Node
 HOSTILE_FIELDS = ['ast', 'ctx', 'parseinfo']                   # dataclass fields of BaseNode
 HOSTILE_ASTKEYS = ['items', 'keys', 'values', 'update', 'get']  # renamed by AST (key + '_')
 HOSTILE_PYKW = ['type', 'class', 'from', 'in', 'match']         # renamed by the model generator only
+# further parameters of a typed rule (`binary(Binary, 'infix', prec=3)`): values a grammar can spell
+# (bare words, quoted strings, numbers); keyword names disjoint from the element names (ATTRS, the
+# hostile pools) and from the fields of every node
+EXTRA_WORDS = ['infix', 'prefix', 'postfix', 'lhs', 'Opx', 'Other']
+EXTRA_QUOTED = ['+', '-', 'a b', '<=', 'x.y', '']
+EXTRA_INTS = [0, 1, 2, 7, 42]
+EXTRA_FLOATS = [2.5, 0.5]
+EXTRA_KWNAMES = ['prec', 'assoc', 'tag', 'mode', 'level', 'base', 'kw']
 
 
 def suffix(i: int) -> str:
@@ -137,7 +147,8 @@ def gen_typed_grammar(rng, case_index, slice_):
 
     slice_: 'fresh' (class names unique to this case), 'collide' (names from a small process-wide
     pool, chains redrawn per case), 'hostile' (fresh names, element names meeting the node API),
-    'shared' (fresh names, two rules declaring the same class)."""
+    'shared' (fresh names, two rules declaring the same class).  Typed rules may get further
+    parameters after the type name (add_extra_params: Rule.params=('A::B', 'infix', 1), Rule.kwparams)."""
     sfx = suffix(case_index)
     spec = Spec()
     nr = rng.choice([2, 3, 3, 4, 4, 5, 6])
@@ -399,7 +410,61 @@ def gen_typed_grammar(rng, case_index, slice_):
     g = L.Grammar(rules)
     meta['chains'] = {k: list(v) for k, v in spec.chain.items()}
     meta['styles'] = [rng.choice(['::', '::', '[]']) for _ in rules]
+    add_extra_params(g, meta, case_index, sfx)
     return g, meta
+
+
+def extra_value(prng, sfx):
+    """-> (value, kind) of one further rule parameter"""
+    r = prng.random()
+    if r < 0.30:
+        w = prng.choice(EXTRA_WORDS)
+        if w[0].isupper():     # looks like a class name (unique to the case, never declared)
+            w += sfx
+        return w, 'word'
+    if r < 0.55:
+        return prng.choice(EXTRA_QUOTED), 'quoted-string'
+    if r < 0.85:
+        return prng.choice(EXTRA_INTS), 'int'
+    return prng.choice(EXTRA_FLOATS), 'float'
+
+
+def add_extra_params(g, meta, case_index, sfx):
+    """typed rules with FURTHER parameters after the type name, in the documented spellings
+    `rule[Type, 'x']`, `rule(Type, 3)`, `rule[Type::Base, op='+']`, `rule(Type, 'x', 1, k=v)`:
+    the parameters go to the semantic actions; the node is still built from the rule's value.
+    Drawn from an RNG of its own (seeded by the grammar generated so far), so that the rest of the
+    workload is the one generated without this class.  Also turns half of the bracket spellings
+    into the parenthesis spelling."""
+    prng = random.Random(h64('C07p', case_index, meta['slice'], typed_text(g, meta['styles'])))
+    styles = meta['styles']
+    for i, st in enumerate(styles):
+        if st == '[]' and prng.random() < 0.5:
+            styles[i] = '()'
+    if prng.random() < 0.5:
+        return
+    for i, r in enumerate(g.rules):
+        if rule_spec(r) is None or prng.random() < 0.4:
+            continue
+        shape = prng.choice(['positional', 'positional', 'keywords', 'both'])
+        kinds = []
+        if shape != 'keywords':
+            vals = []
+            for _ in range(prng.choice([1, 1, 2, 3])):
+                v, kd = extra_value(prng, sfx)
+                vals.append(v)
+                kinds.append(kd)
+            r.params = (r.params[0], *vals)
+        if shape != 'positional':
+            kws = []
+            for k in prng.sample(EXTRA_KWNAMES, prng.choice([1, 1, 2])):
+                v, kd = extra_value(prng, sfx)
+                kws.append((k, v))
+                kinds.append(kd)
+            r.kwparams = tuple(kws)
+        if styles[i] == '::':     # `r::A, 'x' = e ;` is not a spelling the grammar language takes
+            styles[i] = prng.choice(['[]', '()'])
+        meta.setdefault('extras', []).append([r.name, shape, kinds])
 
 
 def builtin_body(rng, bt):
@@ -421,18 +486,24 @@ def rule_spec(r):
 
 
 def typed_text(g: L.Grammar, styles=None, name=None) -> str:
-    """grammar text with `rule::A::B = e ;` (or `rule[A::B] = e ;`) annotations"""
+    """grammar text with `rule::A::B = e ;` (or `rule[A::B] = e ;`, `rule(A::B) = e ;`) annotations;
+    further parameters of a typed rule follow the type in the bracket/parenthesis spellings"""
     out = []
     if name:
         out.append(f'@@grammar :: {name}')
     for i, r in enumerate(g.rules):
         st = (styles or [])[i] if styles and i < len(styles) else '::'
         sp = rule_spec(r)
+        opn, cls = ('(', ')') if st == '()' else ('[', ']')
         if sp is not None:
-            head = f'{r.name}::{sp}' if st == '::' else f'{r.name}[{sp}]'
+            more = [L.param_text(x) for x in r.params[1:]] + [f'{k}={L.param_text(v)}' for k, v in r.kwparams]
+            if st == '::' and not more:
+                head = f'{r.name}::{sp}'
+            else:
+                head = f'{r.name}{opn}{", ".join([sp, *more])}{cls}'
         elif r.params or r.kwparams:   # parameters that name no type
             ps = [L.param_text(x) for x in r.params] + [f'{k}={L.param_text(v)}' for k, v in r.kwparams]
-            head = f'{r.name}[{", ".join(ps)}]'
+            head = f'{r.name}{opn}{", ".join(ps)}{cls}'
         else:
             head = r.name
         out.append(f'{head} = {L.txt(r.body)} ;')
@@ -473,6 +544,11 @@ class TagSemantics:
                 elif set(kwargs) - {'parseinfo'}:
                     hits['keywords-only'] = hits.get('keywords-only', 0) + 1
                 return ast
+            kw = set(kwargs) - {'parseinfo'}
+            if len(args) > 1 or kw:   # a typed rule with further parameters after the type name
+                hits = self.__dict__['hits']
+                k = 'typed+' + ('both' if len(args) > 1 and kw else 'positional' if len(args) > 1 else 'keywords')
+                hits[k] = hits.get(k, 0) + 1
             return Tagged(args[0], ast, name)
         action.__name__ = 'vt_tag_' + name
         self.__dict__[name] = action
@@ -550,8 +626,12 @@ class Judge:
     evidence about what was seen"""
 
     def __init__(self, route, stale_names=(), module=None, hostile=None, own_names=None, shared_heads=(),
-                 conflict_heads=(), declared_specs=None):
+                 conflict_heads=(), declared_specs=None, extra_rules=None):
         self.route = route            # 'synth' | 'module'
+        # rule name -> (shape, text of the further parameters) for typed rules that have parameters
+        # after the type name: evidence, and named in the findings raised inside such a node
+        self.extra_rules = extra_rules or {}
+        self.inside: list[str] = []
         self.own_names = own_names or {}   # rule name -> names of the elements the rule itself defines
         self.shared_heads = set(shared_heads)   # classes declared by more than one rule
         self.conflict_heads = set(conflict_heads)   # ... with different chains of bases (MRO not judged)
@@ -570,12 +650,26 @@ class Judge:
         self.ev[k] = self.ev.get(k, 0) + n
 
     def bad(self, sig, msg):
+        if self.inside:
+            msg += f' [inside the node of {self.inside[-1]}]'
         if not any(s == sig for s, _ in self.findings):
             self.findings.append((sig, msg))
         self.bump('finding:' + sig)
 
     # .................................................................
     def corr(self, mv, tv, path='$', depth=0, where=()):
+        if isinstance(tv, Tagged) and tv.rule in self.extra_rules:
+            shape, ptext = self.extra_rules[tv.rule]
+            self.bump('extra_param_values_judged')
+            self.bump('extra_param_values_judged:' + shape)
+            self.inside.append(f'rule {tv.rule}, which has the further parameters {ptext} after the type name')
+            try:
+                return self.corr_(mv, tv, path, depth, where)
+            finally:
+                self.inside.pop()
+        return self.corr_(mv, tv, path, depth, where)
+
+    def corr_(self, mv, tv, path, depth, where):
         from tatsu.objectmodel import Node
         if isinstance(tv, Tagged):
             spec_ = tv.spec
@@ -877,11 +971,16 @@ def structure_check(judge: Judge, root_value):
 
 
 def walker_check(judge: Judge, reach, rng):
-    """DepthFirst / BreadthFirst / PostOrder walkers must reach every node; a plain NodeWalker must
+    """DepthFirst / BreadthFirst / PostOrder walkers must reach every node, with a fresh instance
+    and with an instance that has a history (reused_walker_check); a plain NodeWalker must
     dispatch on the class name or, failing that, on the declared bases (documented spellings)"""
     from tatsu import walkers as W
     kinds = [('depthfirst', W.DepthFirstWalker), ('breadthfirst', W.BreadthFirstWalker),
              ('postorder', W.PostOrderDepthFirstWalker)]
+    roots = [r for r, _ in reach.values()]
+    saved = rng.getstate()
+    rr = random.Random(rng.random())   # histories of the reused instances: a stream of their own,
+    rng.setstate(saved)                # the draws of the dispatch part stay as they were
     for root, order in reach.values():
         want = {id(n) for n in order}
         for label, base in kinds:
@@ -918,6 +1017,8 @@ def walker_check(judge: Judge, reach, rng):
                             judge.bad('walker:postorder:parent-before-child',
                                       'PostOrderDepthFirstWalker walked a parent before its child')
                             break
+            if not missing:
+                reused_walker_check(judge, root, order, label, base, rr, roots)
     # dispatch on declared class names / bases
     declared = {}
     for node, names in judge.nodes:
@@ -957,6 +1058,83 @@ def walker_check(judge: Judge, reach, rng):
             judge.bad('walker:dispatch:wrong-method',
                       f'NodeWalker with methods for {chosen} dispatched a {"::".join(names)} node to {got!r}, '
                       f'expected {want!r}')
+
+
+class _StopWalk(Exception):
+    """raised by our walk_Node to interrupt a traversal (a validating walker that refuses a node)"""
+
+
+WALKER_ITER = {'depthfirst': 'iter_depthfirst', 'breadthfirst': 'iter_breadthfirst',
+               'postorder': 'iter_postdepthfirst'}
+WALKER_HISTORIES = ('walked', 'interrupted', 'iterated-to-the-end', 'iterated-partly', 'walked-another-tree')
+
+
+def reused_walker_check(judge: Judge, root, order, label, base, rng, roots):
+    """a walker INSTANCE that was used before (a complete walk, a walk interrupted by an exception
+    from a walk_xxx method, its generator run to the end or abandoned after the first node, a walk
+    of another tree) must still reach every node of `root` (a fresh instance was seen to)"""
+    want = {id(n) for n in order}
+    seen = []
+    limit = [None]
+
+    def walk_Node(self, node, *a, **k):
+        if limit[0] is not None and len(seen) >= limit[0]:
+            raise _StopWalk
+        seen.append(node)
+        return node
+    w = type('VTReused' + base.__name__, (base,), {'walk_Node': walk_Node})()
+    hist = rng.choice(WALKER_HISTORIES)
+    others = [r for r in roots if r is not root]
+    if hist == 'walked-another-tree' and not others:
+        hist = 'walked'
+    it_fn = getattr(w, WALKER_ITER[label], None)
+    if hist.startswith('iterated') and not callable(it_fn):
+        judge.bump('walker_reuse_generator_unobserved')   # the generator method is gone: not an alarm
+        hist = 'interrupted'
+    try:
+        if hist == 'walked':
+            w.walk(root)
+        elif hist == 'interrupted':
+            limit[0] = rng.randrange(len(order))    # refuses the node after that many
+            try:
+                w.walk(root)
+            except _StopWalk:
+                pass
+            limit[0] = None
+        elif hist == 'iterated-to-the-end':
+            for _ in it_fn(root):
+                pass
+        elif hist == 'iterated-partly':
+            it = iter(it_fn(root))
+            next(it, None)
+            it.close()       # what leaving a `for` loop early does to the generator
+        else:
+            w.walk(rng.choice(others))
+    except Exception as e:  # noqa: BLE001
+        judge.bad(f'walker:{label}:exc:{type(e).__name__}',
+                  f'{base.__name__} ({hist}) raised {e!r} on {show(root)[:100]}')
+        return
+    seen.clear()
+    try:
+        w.walk(root)
+    except Exception as e:  # noqa: BLE001
+        judge.bad(f'walker:{label}:state-kept-from:{hist}',
+                  f'{base.__name__}: walk() on an instance last used for {hist} raised {e!r} on '
+                  f'{show(root)[:100]} (a fresh instance walks it)')
+        return
+    judge.bump(f'walker_reuse:{label}')
+    judge.bump(f'walker_reuse_history:{hist}')
+    got = {id(n) for n in seen}
+    if want - got:
+        miss = [n for n in order if id(n) not in got]
+        judge.bad(f'walker:{label}:state-kept-from:{hist}',
+                  f'{base.__name__}: walk() on an instance last used for {hist} visited {len(got & want)} of '
+                  f'{len(want)} nodes of {show(root)[:100]} (a fresh instance reaches all); missed e.g. '
+                  f'{show(miss[0])[:60]}')
+    elif got - want:
+        judge.bad(f'walker:{label}:state-kept-from:{hist}',
+                  f'{base.__name__}: walk() on an instance last used for {hist} visited nodes outside the tree of '
+                  f'{show(root)[:100]}')
 
 
 # ----------------------------------------------------------------------------- generated module
